@@ -6,6 +6,7 @@ package qbft
 // redirected to vSign/vRecover under the engine); hashProto is an ideal injective hash of all message fields.
 
 import (
+	"bytes"
 	"context"
 
 	k1 "github.com/decred/dcrd/dcrec/secp256k1/v4"
@@ -164,6 +165,9 @@ func vSignBy(m *pbv1.QBFTMsg, peer int) *pbv1.QBFTMsg {
 }
 
 // vTamper alters field number f of m to a different valid value; returns whether something changed.
+// vOtherHashes: the hashes of the two values attached to the message (substitution targets for kinds 12 and 13).
+var vOtherHashes [][]byte
+
 func vTamper(m *pbv1.QBFTMsg, f int, nv byte) {
 	switch f {
 	case 1:
@@ -185,10 +189,12 @@ func vTamper(m *pbv1.QBFTMsg, f int, nv byte) {
 		vrt.Assume(int64(nv) != m.PreparedRound)
 		m.PreparedRound = int64(nv)
 	case 7:
-		vrt.Assume(nv != 0 && len(m.ValueHash) == 32)
+		// (the two attached values' hashes differ in more than their first byte, as real hashes do: flipping bits of the
+		// first byte never turns one into the other - that substitution is kind 13)
+		vrt.Assume(nv != 0 && len(m.ValueHash) == 32 && vOtherHashes[0][1] != vOtherHashes[1][1])
 		m.ValueHash[0] ^= nv
 	case 8:
-		vrt.Assume(nv != 0 && len(m.PreparedValueHash) == 32)
+		vrt.Assume(nv != 0 && len(m.PreparedValueHash) == 32 && vOtherHashes[0][1] != vOtherHashes[1][1])
 		m.PreparedValueHash[0] ^= nv
 	case 9:
 		vrt.Assume(nv != 0)
@@ -199,10 +205,19 @@ func vTamper(m *pbv1.QBFTMsg, f int, nv byte) {
 		// cross-signer substitution: claim to be another peer but keep the signature
 		vrt.Assume(int64(nv) < vPeers && int64(nv) != m.PeerIdx)
 		m.Signature[0] = nv + 1
+	case 12:
+		// the prepared value hash is replaced by the hash of the OTHER value attached to the message (so the only thing
+		// that can reject it is the signature)
+		vrt.Assume(len(m.PreparedValueHash) == 32 && !bytes.Equal(vOtherHashes[0], vOtherHashes[1]))
+		m.PreparedValueHash = append([]byte(nil), vOtherHashes[0]...)
+	case 13:
+		// likewise for the value hash
+		vrt.Assume(len(m.ValueHash) == 32 && !bytes.Equal(vOtherHashes[0], vOtherHashes[1]))
+		m.ValueHash = append([]byte(nil), vOtherHashes[1]...)
 	}
 }
 
-const vTamperKinds = 11
+const vTamperKinds = 13
 
 // VerifC05Tamper: a valid message with two justifications and two values is accepted; the same message with any one
 // signed field of the main message or of a justification altered, a referenced value altered, or the justification
@@ -210,13 +225,15 @@ const vTamperKinds = 11
 func VerifC05Tamper() {
 	vInitKeys()
 	target := vrt.Param("target") // 0 none, 1 main message, 2 first justification, 3 second justification, 4 value, 5/6 cross-duty justification
-	c := vConsensus(vPeers, &vDeadliner{status: core.DeadlineScheduled})
+	dl := &vDeadliner{status: core.DeadlineScheduled}
+	c := vConsensus(vPeers, dl)
 	slot := uint64(vrt.Byte("slot"))
 	dtyp := int32(vrt.Byte("dutytype"))
 	vrt.Assume(dtyp >= 1 && dtyp <= 13 && slot < 200)
 	v0, v1 := vrt.Byte("val0"), vrt.Byte("val1")
 	vals := []*anypb.Any{vAny(v0), vAny(v1)}
 	hashes := [][]byte{vHashOf(vals[0]), vHashOf(vals[1])}
+	vOtherHashes = hashes
 	main, mp := vDrawMsg("m", slot, dtyp, hashes)
 	// target 5/6: the first justification is a correctly signed message of another duty (other slot / other duty type)
 	jslot, jtyp := slot, dtyp
@@ -253,7 +270,9 @@ func VerifC05Tamper() {
 	}
 	duty := core.Duty{Slot: slot, Type: core.DutyType(dtyp)}
 	ctx := context.Background()
-	prime := vrt.Param("prime") == 1 && target >= 1 && target <= 6
+	// target 8: the genuine message is handled, then the duty expires (its consensus instance still exists), then the same
+	// genuine message arrives again
+	prime := (vrt.Param("prime") == 1 && target >= 1 && target <= 6) || target == 8
 	if prime {
 		// the genuine message is handled first (same node, same duty), then the altered copy
 		vrt.Assume(jslot == slot && jtyp == dtyp)
@@ -271,9 +290,19 @@ func VerifC05Tamper() {
 		g1 := proto.Clone(gen[2]).(*pbv1.QBFTMsg)
 		_, _, errG := c.handle(ctx, "", &pbv1.QBFTConsensusMsg{Msg: gm, Justification: []*pbv1.QBFTMsg{g0, g1}, Values: []*anypb.Any{vAny(v0), vAny(v1)}})
 		vrt.Assert("the genuine message is accepted", errG == nil)
+		if target == 8 {
+			dl.status = core.DeadlineExpired
+		}
 	}
 	_, _, err := c.handle(ctx, "", msg)
 	inst, has := c.mutable.instances[duty]
+	if target == 8 {
+		vrt.Assert("a message for a duty that has expired is rejected although an instance for the duty still exists", err != nil)
+		vrt.Assert("the late message is not enqueued", has && len(inst.RecvBuffer) == 1)
+		vrt.Reach("rejected after expiry")
+		vrt.Reach("end")
+		return
+	}
 	if prime {
 		vrt.Assert("an altered copy of an already accepted message is rejected", err != nil)
 		vrt.Assert("the altered copy is not enqueued", has && len(inst.RecvBuffer) == 1)
